@@ -33,7 +33,7 @@
   "C06"
  ],
  "level": "P",
- "tier": "wip",
+ "tier": "quick",
  "harness": "h_extent_get_down",
  "replace": [
   "ext2fs_extent_block_csum_verify"
@@ -73,7 +73,7 @@
   "C06"
  ],
  "level": "P",
- "tier": "wip",
+ "tier": "quick",
  "harness": "h_extent_get_down",
  "replace": [
   "ext2fs_extent_block_csum_verify"
@@ -114,7 +114,7 @@
   "C06"
  ],
  "level": "P",
- "tier": "wip",
+ "tier": "thorough",
  "harness": "h_extent_get_down",
  "replace": [
   "ext2fs_extent_block_csum_verify"
